@@ -182,13 +182,15 @@ class Lab:
         self.now = self.now + timedelta(seconds=1)
         return self.now
 
-    def send_quote(self, i, mid, spread):
+    def send_quote(self, i, mid, spread, same_time=False):
         bid = mid * (1 - spread / 2)
         ask = mid * (1 + spread / 2)
         if not (bid > 0 and ask >= bid):      # rounding at tiny spreads
             bid = ask = mid
         self.mid[i] = mid
-        self.exchange.process_EventNBBO(EventNBBO(self.tick(), self.contracts[i], bid, ask))
+        # several quotes may carry the same timestamp (one NBBO per contract per tick, corrections)
+        when = self.now if same_time else self.tick()
+        self.exchange.process_EventNBBO(EventNBBO(when, self.contracts[i], bid, ask))
         self.ledger.quote(i, bid, ask)
         return bid, ask
 
@@ -310,10 +312,11 @@ def trade_ops(n):
 
 def quote_ops(n):
     ci = st.integers(0, n - 1)
+    same = st.sampled_from([False, False, False, True])     # same timestamp as the previous event
     return st.one_of(
-        st.tuples(st.just("Q"), ci, st.floats(0.85, 1.15), spreads()),
-        st.tuples(st.just("Q"), ci, st.floats(0.85, 1.15), spreads()),
-        st.tuples(st.just("QF"), ci, st.floats(0.01, 1e5), spreads()),
+        st.tuples(st.just("Q"), ci, st.floats(0.85, 1.15), spreads(), same),
+        st.tuples(st.just("Q"), ci, st.floats(0.85, 1.15), spreads(), same),
+        st.tuples(st.just("QF"), ci, st.floats(0.01, 1e5), spreads(), same),
     )
 
 
@@ -363,6 +366,11 @@ def histories(draw, tier="quick", margined_bias=False, max_ops=40):
         motif = [("Q", ci, 1.0, draw(st.sampled_from([0.0, 0.01, 0.03]))), ("T", ci, "open", x),
                  ("Q", ci, draw(st.floats(0.9, 1.1)), draw(st.sampled_from([0.001, 0.01, 0.03]))), second]
         ops = motif + list(ops)
+    if not dyadic and draw(st.sampled_from([False, False, False, True])):
+        # motif: a valuation, then a second quote carrying the SAME timestamp as the previous event, then a valuation
+        ci = draw(st.integers(0, n - 1))
+        ops = list(ops) + [("V", "nlv"), ("Q", ci, draw(st.floats(0.9, 1.1)), draw(st.sampled_from([0.0, 0.01])), True),
+                           ("V", draw(st.sampled_from(["nlv", "liq", "context"])))]
     return {"contracts": specs, "fees": list(fees), "deposit": deposit, "rate": rate, "markup": markup,
             "dyadic": dyadic, "ops": [list(o) for o in ops]}
 
@@ -478,10 +486,11 @@ def run_history(case, oracle, res, swap=False, nlv_path=None):
         kind = op[0]
         if kind in ("Q", "QF", "QR"):
             i = op[1] % n
+            same = len(op) > 4 and bool(op[4])
             if kind == "Q":
-                lab.send_quote(i, min(max(lab.mid[i] * op[2], 1e-3), 1e7), op[3])
+                lab.send_quote(i, min(max(lab.mid[i] * op[2], 1e-3), 1e7), op[3], same)
             elif kind == "QF":
-                lab.send_quote(i, op[2], op[3])
+                lab.send_quote(i, op[2], op[3], same)
             else:
                 lab.mid[i] = op[2]
                 lab.send_raw_quote(i, op[2] * op[3], op[2])
@@ -631,6 +640,10 @@ def run_history(case, oracle, res, swap=False, nlv_path=None):
         stats["margined_open_max"] = max(stats["margined_open_max"], open_margined)
         if oracle == "c01" and not check_c01(tag):
             return lab, stats
+        if oracle == "c01-sparse" and kind == "V" and op[1] == "nlv" and not check_c01(tag):
+            return lab, stats
+    if oracle == "c01-sparse":
+        check_c01("end of history")
     return lab, stats
 
 
